@@ -16,6 +16,10 @@ def parseAct (a : String) : Option Act :=
   match a.splitOn ":" with
   | ["S", k, v] => (hexStr v).map (Act.set k ·)
   | ["A", k, v] => (hexStr v).map (Act.add k ·)
+  | ["SR", k, n, b] =>
+    match n.toNat?, bytesOfHex b with
+    | some n, some [x] => some (Act.set k (String.ofList (List.replicate n (Char.ofNat x.toNat))))
+    | _, _ => none
   | ["H", c] => c.toNat?.map Act.writeHeader
   | ["W", d] => (bytesOfHex d).map Act.write
   | ["R", n, b] =>
@@ -77,24 +81,45 @@ def tagsOne (e : Exch) (s : St) : List String :=
   (if s.writeRes.contains 2 then ["overcl"] else []) ++
   (if nwrites > 0 || e.script.contains .flush then ["nt"] else [])
 
+def runReqPair (impl : String) : Ans :=
+  { model := "1 1", verdict := if impl == "1 1" then "ok" else "FAIL:cross-request-header", tags := ["reqpair", "nt"] }
+
 def run (op impl : String) : Ans :=
+  if op.startsWith "q " then runReqPair impl else
   let multi := op.startsWith "m "
-  let ops := if multi then ((op.drop 2).toString.splitOn ";") else [op]
+  let pair := op.startsWith "p "
+  let ops := if multi || pair then ((op.drop 2).toString.splitOn ";") else [op]
   match ops.mapM parseExch with
   | none => { model := "bad-op", verdict := "skip" }
   | some es =>
-    let hist := history [] (es.map fun e => (e.rq, e.ka, e.script))
+    if pair && es.length != 2 then { model := "bad-op", verdict := "skip" } else
+    let hist := match pair, es with
+      | true, [a, b] => pairRun (a.rq, a.ka, a.script) (b.rq, b.ka, b.script)
+      | _, _ => history [] (es.map fun (e : Exch) => (e.rq, e.ka, e.script))
     let model := ";".intercalate (hist.map fun (s, b) => renderResB s b)
     let impls := impl.splitOn ";"
     let verdicts := (es.zip impls).map fun (e, i) => verdictOne e i
+    let outOf (i : String) : Bytes :=
+      match i.splitOn " " with
+      | [_, _, _, _, hx] => (bytesOfHex hx).getD []
+      | _ => []
+    let cross : Bool := match pair, es, impls with
+      | true, [a, b], [ia, ib] =>
+        crossHeader a.rq.isHead a.script b.script (outOf ia) || crossHeader b.rq.isHead b.script a.script (outOf ib)
+      | _, _, _ => false
     let verdict :=
       if impls.length != es.length then "FAIL:bad-result"
+      else if cross then "FAIL:cross-response-header"
       else match verdicts.find? (fun v => v.startsWith "FAIL") with
         | some v => v
         | none => if verdicts.all (· == "skip") then "skip" else "ok"
     let tags := (match es, hist with
                  | e :: _, (s, _) :: _ => tagsOne e s
                  | _, _ => []) ++
+      (if pair then ["pair"] ++
+         (match es with
+          | a :: _ => if a.script.any (fun x => match x with | .set "A-Big" _ => true | _ => false) then ["stallinhead"] else []
+          | _ => []) else []) ++
       (if multi then ["history"] ++
          (if (es.zip (es.drop 1)).any (fun (a, b) => a.rq.proto11 != b.rq.proto11 &&
                expectedStatus a.script == expectedStatus b.script) then ["verflip"] else []) else [])
